@@ -8,6 +8,7 @@ import (
 	"strings"
 
 	"github.com/tobgu/qframe"
+	"github.com/tobgu/qframe/config/groupby"
 	"github.com/tobgu/qframe/config/newqf"
 	qsql "github.com/tobgu/qframe/config/sql"
 
@@ -30,6 +31,10 @@ type toSQLCase struct {
 	// is given BEFORE the preset (the order of options must not matter)
 	Preset    string `json:"preset,omitempty"`
 	IncrFirst bool   `json:"incr_first,omitempty"`
+	// Pre: the frame written is derived from the shaped frame first: "sort-upper" = Sort by the first column descending,
+	// then the built-in ToUpper on every string column; "filtered-upper" = FilteredApply(ToUpper) for the rows of the
+	// first half; "agg" = GroupBy(all columns).Aggregate(count As cnt~)
+	Pre string `json:"pre,omitempty"`
 }
 
 func cellArg(k model.Kind, c model.Cell) driver.Value {
@@ -67,6 +72,28 @@ func runToSQLCase(c toSQLCase) *core.Failure {
 	in := model.ObserveAs(qf, c.Frame)
 	if in.Err {
 		return core.Failf("could not build frame: %s", in.ErrText)
+	}
+	if c.Pre != "" {
+		var ups []qframe.Instruction
+		for _, col := range in.Cols {
+			if col.Kind == model.String {
+				ups = append(ups, qframe.Instruction{Fn: "ToUpper", DstCol: col.Name, SrcCol1: col.Name})
+			}
+		}
+		switch c.Pre {
+		case "sort-upper":
+			qf = qf.Sort(qframe.Order{Column: in.Cols[0].Name, Reverse: true}, qframe.Order{Column: in.Cols[len(in.Cols)-1].Name}).Apply(ups...)
+		case "filtered-upper":
+			qf = qf.WithRowNums("rn~").FilteredApply(qframe.Filter{Column: "rn~", Comparator: "<", Arg: (in.N + 1) / 2}, ups...).Drop("rn~")
+		default:
+			qf = qf.GroupBy(groupby.Columns(in.Names()...), groupby.Null(true)).Aggregate(qframe.Aggregation{Fn: "count", Column: in.Cols[0].Name, As: "cnt~"}).Sort(qframe.Order{Column: in.Cols[0].Name})
+		}
+		meta := in
+		in = model.Observe(qf)
+		if in.Err {
+			return core.Failf("could not derive the %s frame: %s", c.Pre, in.ErrText)
+		}
+		in.AdoptMeta(meta)
 	}
 	st := sqlmem.NewStore()
 	var opts []qsql.ConfigFunc
@@ -301,6 +328,16 @@ func runReadSQLCase(c readSQLCase) *core.Failure {
 	if d := model.Diff(want, got); d != "" {
 		return core.Failf("ReadSQL(cols=%v kinds=%v rows=%v coerce=%v precision=%d): %s\n want: %s\n  got: %s", c.Cols, c.ColKinds, c.Rows, c.Coerce, c.Precision, d, want, got)
 	}
+	// latent state: follow-up operations on the frame ReadSQL returned (battery.go)
+	if !got.Err && len(c.Rows) <= 2 && c.Precision == 0 {
+		what := fmt.Sprintf("the frame returned by ReadSQL(cols=%v kinds=%v rows=%v coerce=%v)", c.Cols, c.ColKinds, c.Rows, c.Coerce)
+		if f := latentBattery(first, nil, what); f != nil {
+			return f
+		}
+		if f := bookkeepingBattery(first, what); f != nil {
+			return f
+		}
+	}
 	// a second read of a result set of the same shape (the rows in reverse order, the first row once more): the frame
 	// returned by the first read is a value of its own and must not change
 	if !got.Err && len(st.ResultRows) > 0 {
@@ -335,7 +372,7 @@ func c19Run(ctx *core.Ctx) {
 	execT := func(c toSQLCase) {
 		ctx.Exec(c, func() *core.Failure { return runToSQLCase(c) })
 		ctx.Outcome("tosql")
-		ctx.Nontrivial(fmt.Sprintf("%s|%d|%s|%v|%s|%v", c.Frame.String(), c.Shape, c.Escape, c.Incr, c.Table, c.ReadBack))
+		ctx.Nontrivial(fmt.Sprintf("%s|%d|%s|%v|%s|%v|%s", c.Frame.String(), c.Shape, c.Escape, c.Incr, c.Table, c.ReadBack, c.Pre))
 		if ctx.WantSample() && ctx.Index()%1501 == 5 {
 			ctx.Sample(c)
 		}
@@ -379,6 +416,31 @@ func c19Run(ctx *core.Ctx) {
 						}
 					}
 				})
+			}
+		}
+	}
+	// ---- derived frames: sorted and then upper-cased, upper-cased for some rows only, aggregated with As; strings of
+	// different lengths (the layout of the string data no longer follows the row order)
+	for _, pre := range []string{"sort-upper", "filtered-upper", "agg"} {
+		for n := 2; n <= 5; n++ {
+			for shape := 0; shape < model.NShapes; shape++ {
+				if !ctx.Mine() {
+					continue
+				}
+				id := model.Col{Name: "id", Kind: model.Int}
+				sc := model.Col{Name: "name", Kind: model.String}
+				s2 := model.Col{Name: "s2", Kind: model.String}
+				for r := 0; r < n; r++ {
+					id.Cells = append(id.Cells, model.I((r*3)%n))
+					sc.Cells = append(sc.Cells, model.S(strings.Repeat(string(rune('a'+r)), 1+(r*5)%7)))
+					if r == 1 {
+						s2.Cells = append(s2.Cells, model.Null())
+					} else {
+						s2.Cells = append(s2.Cells, model.S(strings.Repeat("xy", n-r)))
+					}
+				}
+				f := model.Frame{N: n, Cols: []model.Col{id, sc, s2}}
+				execT(toSQLCase{Kind: "tosql", Frame: f, Shape: shape, Escape: `"`, Table: "t", ReadBack: true, Pre: pre})
 			}
 		}
 	}
